@@ -86,6 +86,16 @@ class Session:
         self.epoch = 1600000000
         with patched_client_module():
             self.cl = HttpBeaconClient()
+            if init.get("prior_session"):
+                # the client object has been used before: an earlier session of the same beacon id (another host identity)
+                # that checked in once with a peer of its own. The session under test must not carry anything over from it.
+                old_ts = peer.TeamServer(self.cfg, self.priv)
+                old_ts.masks = [bytes(m) for m in init["masks"]]
+                self.srv.handler = old_ts.handle
+                lib(self.cl.run, self.bconfig, dry_run=True, domain="127.0.0.1", port=self.srv.port, scheme="http", beacon_id=init["beacon_id"], pid=(init["pid"] % 65535) + 1, computer="OLD-" + init["computer"][:8], user="old." + init["user"][:8], process="old.exe", internal_ip="10.9.9.9", arch="x86", what="HttpBeaconClient.run(dry_run=True) [earlier session]")
+                lib(self.cl.get_task, what="HttpBeaconClient.get_task() [earlier session]")
+                self.srv.errors.clear()
+                self.srv.handler = self.ts.handle
             lib(
                 self.cl.run,
                 self.bconfig,
@@ -378,6 +388,7 @@ def finish(sess, case, stats):
             "uri_append" if any(n == "URI_APPEND" for n, _ in sess.cfg["get_steps"] + sess.cfg["post_steps"]) else "no_uri_append",
             "verbs_%s_%s" % (sess.cfg["verb_get"], sess.cfg["verb_post"]),
             "tasks" if sess.ntasks else "no_tasks",
+            "reused_client_object" if sess.init.get("prior_session") else "fresh_client_object",
             "large_packet" if any(len(r) > 60000 for r, _ in sess.messages) else "small_packets",
         ],
     )
@@ -391,6 +402,7 @@ init_strategy = st.fixed_dictionaries(
         "computer": st.text(alphabet=S.token_chars + "-", min_size=1, max_size=15),
         "user": st.text(alphabet=S.token_chars + ". ", min_size=1, max_size=15),
         "masks": st.lists(st.binary(min_size=4, max_size=4), min_size=8, max_size=8),
+        "prior_session": st.sampled_from([False, False, True]),
     }
 )
 _big = st.tuples(st.integers(0, 3), st.integers(0, 255)).map(lambda t: b"\x00BIG" + bytes(t))
